@@ -423,6 +423,15 @@ def gen_c18(tier, seed):
     for i in insts2:
         i["name"] = i["name"].replace("c18_", "c18m_", 1)
     nonneg = {gid: all(c >= 0 for key in ("c16", "c32") for _, row in r[key] for c in row) for gid, r in real.items()}
+    for i in insts + insts2:
+        if i["pixel"].startswith("U16"):
+            # 16-bit min/max bounds with dense real coefficients: > 20 min per instance
+            i["tier"] = "thorough"
+            i["t"] = 3600
+            i["hot"] = i.get("hot") or (3 if i["mode"] == "bounded" else 0)
+    if tier != "thorough":
+        insts = [i for i in insts if i["tier"] == "quick"]
+        insts2 = [i for i in insts2 if i["tier"] == "quick"]
     write_gen("C18", insts + insts2)
     return {"instances": len(insts) + len(insts2), "geometries": {k: list(v) for k, v in G.items()},
             "all_real_coefficients_nonnegative": nonneg, "skipped": skipped}
@@ -464,6 +473,11 @@ def gen_c01(tier, seed):
             skipped.append((inst["name"], "a sample centre sits on a kernel discontinuity (ideal weight undefined)"))
             continue
         inst["ref_starts"], inst["ref_weights"], inst["ref_budget"] = starts, weights, budget
+        if not (inst["pixel"] == "U8" and inst["_gid"] == "bil_8_3"):
+            # full-symbolic contents cost ~7 min per U8 instance (two dense multiplier sets);
+            # elsewhere 3 components at symbolic positions over a fixed background
+            inst["hot"] = 3
+        inst["t"] = 2400
         # the reference window may be wider than the real one: make the source wide enough
         need = max(s + len(wt) for s, wt in zip(starts, weights))
         if inst["dir"] == "h":
